@@ -12,6 +12,10 @@ CLAIMED = {
         text="every (srfi 151) export (and srfi 33 aliases) on lattice pairs, lattice x shift counts and seeded random operands (both signs, word-boundary lengths) compared with Python unbounded two's-complement integers; exploration only",
         note="trusted: Python integers; zero-width bit-field-rotate excluded (divides by zero in the SRFI's own reference code)",
         technique="property-based testing against a reference model (Python integers): boundary-lattice enumeration + seeded random generation"),
+    "C02": dict(
+        text="generated allocation-heavy expressions (typed grammar over allocating primitives of the R7RS libraries and C-backed libraries srfi 1/69/95/151/18/160, chibi json) x forced-collection schedules (every allocation in a window, every n-th with phase, seeded random); oracles: ASan use-after-poison on swept objects, a shadow-mark audit before every collection (every reference reachable from the roots must designate a live object), heap checker after every sweep, and byte-identical output against the unforced run; thorough adds the shipped test corpus under every-n-th schedules; exploration only",
+        note="trusted: the hook's poisoning/scribbling and checker (harness/verif_gc.h); programs are deterministic; the unforced run is the reference, so a defect that also corrupts the unforced run is C01's business",
+        technique="property-based testing / fault injection: generated programs x injected collection schedules, differential + invariant oracle (ASan poisoning, shadow mark)"),
 }
 
 NOT_YET = "check not built yet in this session (planned, see DESIGN.md section 4)"
